@@ -168,6 +168,35 @@ def withOracle (w : World) (t : Transcript) : World := { w with rx := oracleOf t
 def cliIdx (w : World) (name : String) : Option Nat := w.cliConfs.findIdx? fun c => c.name = strBytes name
 def srvIdxW (w : World) (name : String) : Option Nat := w.servers.findIdx? fun s => s.conf.name = strBytes name
 
+/-! ### the server-side writer threads under the scheduler (C02 hand-off), at the granularity of whole ops:
+    a sleeping writer runs only after it was signalled; when it runs it takes everything that is queued.
+    (The statement-level protocol and its proof are in Rsp.Model.Handoff / Rsp.Props.C02Handoff.) -/
+
+/-- the first `n` entries of client `ci`'s reply queue leave through its writer -/
+def drainFirst (w : World) (ci n : Nat) : World :=
+  match getCli w ci with
+  | none => w
+  | some c =>
+    let gone := c.replyq.take n
+    let evs := gone.map fun o => s!"wout:{ci}:{toHex (((getRq w o).bind (·.replybuf)).getD [])}"
+    let w := updCli w ci fun c => { c with replyq := c.replyq.drop n }
+    let w := gone.foldl freerq w
+    { w with events := evs.reverse ++ w.events }
+
+def qlenOf (w : World) (ci : Nat) : Nat := ((getCli w ci).map (·.replyq.length)).getD 0
+
+/-- what the writers did during an op that went from `before` to `w`: `sendreply` appended (at most once per queue);
+    its first scheduling point is just before it takes the queue mutex -/
+def writersAfterOp (before w : World) : World :=
+  before.wr.foldl (fun w (ci, sig) =>
+    let old := qlenOf before ci
+    if qlenOf w ci > old then
+      let pre := before.wrPre % 2 = 1
+      let (w, sig, atPush) := if pre && sig then (drainFirst w ci old, false, 0) else (w, sig, old)
+      let sig := if atPush = 0 then true else sig
+      { w with wr := w.wr.map fun (c, s) => if c = ci then (c, sig) else (c, s) }
+    else w) w
+
 /-- execute one world op; returns new state and the output line -/
 structure DState where
   w : World
@@ -197,7 +226,9 @@ def worldOp1 (st : Option World) (op : String) (args tr : List String) : Option 
       let w := withOracle w t
       let (w, o) := newrequest w
       let w := updRq w o fun r => { r with buf := some pkt, frm := some k }
+      let w0 := w
       let (w, ret) := radsrv w o
+      let w := writersAfterOp w0 w
       let fwd := String.join (w.servers.map fun s =>
         String.join ((List.range 256).map fun i =>
           if (slotOf s i).rq = some o then s!" fwd:{bytesStr s.conf.name}:{i}:{toHex (((getRq w o).bind (·.buf)).getD [])}" else ""))
@@ -208,7 +239,9 @@ def worldOp1 (st : Option World) (op : String) (args tr : List String) : Option 
     match srvIdxW w name, ofHex pkt with
     | some si, some pkt =>
       let w := withOracle w t
+      let w0 := w
       let (w, ret) := replyh w si pkt
+      let w := writersAfterOp w0 w
       let (w, s) := tail w
       (some w, s!"ret={ret}" ++ s)
     | _, _ => (some w, "bad-op")
@@ -243,7 +276,30 @@ def worldOp1 (st : Option World) (op : String) (args tr : List String) : Option 
     | none => (some w, "bad-op")
   | "rmclient", [k], some w =>
     match k.toNat? with
-    | some k => let (w, s) := tail (removeclient w k); (some w, "ok" ++ s)
+    | some k => if w.wr.any (·.1 = k) then (some w, "bad-op") else let (w, s) := tail (removeclient w k); (some w, "ok" ++ s)
+    | none => (some w, "bad-op")
+  | "wrstart", [k], some w =>
+    match k.toNat? with
+    | some k =>
+      if (getCli w k).isNone || w.wr.any (·.1 = k) then (some w, "bad-op") else
+      -- the thread starts, takes what is queued and goes to sleep on the empty queue
+      let w := drainFirst w k (qlenOf w k)
+      let (w, s) := tail { w with wr := w.wr ++ [(k, false)] }
+      (some w, "wr" ++ s)
+    | none => (some w, "bad-op")
+  | "wrrun", [k], some w =>
+    match k.toNat? with
+    | some k =>
+      match w.wr.find? (·.1 = k) with
+      | none => (some w, "bad-op")
+      | some (_, sig) =>
+        let w := if sig then drainFirst w k (qlenOf w k) else w
+        let (w, s) := tail { w with wr := w.wr.map fun (c, s) => if c = k then (c, false) else (c, s) }
+        (some w, s!"wr ran={if sig then 1 else 0} asleep=1" ++ s)
+    | none => (some w, "bad-op")
+  | "wrpre", [m], some w =>
+    match m.toNat? with
+    | some m => (some { w with wrPre := m }, "ok")
     | none => (some w, "bad-op")
   | "radput", [b], some w => (some { w with radputOk := b = "1" }, "ok")
   | "udplisten", [], some w =>
